@@ -81,6 +81,8 @@ def analyse(tok, p=0):
     elif k == "RBF": s.kshape = "%s %s trainCenters=%d trainWidth=%d" % (c1("nin", I(1)), c1("nout", I(2)), I(3), I(4))
     elif k == "CMAC": s.kshape = "%s %s %s" % (c1("nin", I(1)), c1("nout", I(2)), c1("tilings", I(3)))
     elif k == "KEXP": s.kshape = "%s %s offset=%d basis-batches%s" % (c1("nin", I(5)), c1("nout", I(6)), I(7), "=1" if I(4) <= I(3) else ">1")
+    elif k == "KEXB":
+        nbat = I(3); s.kshape = "%s %s offset=%d basis-batches%s" % (c1("nin", I(4 + nbat)), c1("nout", I(5 + nbat)), I(6 + nbat), "=1" if nbat <= 1 else ">1")
     elif k == "ENS": s.kshape = c1("members", I(1))
     elif k == "CLS": s.kshape = "%s offset=%d bias=%d" % (c1("classes", I(3)), I(1), 1 if I(4) else 0)
     elif k == "NET":
@@ -126,9 +128,15 @@ def analyse0(tok, p=0):
         s.name = "CMACMap"; s.shape = "nin=%d nout=%d tilings=%d tiles=%d" % (ni, no, tilings, tiles); return s, p + 7
     if k == "KEXP":
         kern, bs, nb, ni, no, off = I(1), I(3), I(4), I(5), I(6), I(7)
-        s.np = nb * no + (no if off else 0); s.nin, s.nout = ni, no; s.exact = kern == 0; s.hp = s.hi = False
-        s.name = "KernelExpansion<%s>" % ("LinearKernel" if kern == 0 else "GaussianRbfKernel"); s.shape = "basis=%d batch=%d nin=%d nout=%d offset=%d" % (nb, bs, ni, no, off)
+        s.np = nb * no + (no if off else 0); s.nin, s.nout = ni, no; s.exact = kern != 1; s.hp = s.hi = False
+        s.name = "KernelExpansion<%s>" % ("LinearKernel" if kern == 0 else "GaussianRbfKernel" if kern == 1 else "PolynomialKernel"); s.shape = "basis=%d batch=%d nin=%d nout=%d offset=%d" % (nb, bs, ni, no, off)
         return s, p + 8 + nb * ni
+    if k == "KEXB":
+        kern, nbat = I(1), I(3); sz = [I(4 + i) for i in range(nbat)]; nb = sum(sz); ni, no, off = I(4 + nbat), I(5 + nbat), I(6 + nbat)
+        s.np = nb * no + (no if off else 0); s.nin, s.nout = ni, no; s.exact = kern != 1; s.hp = s.hi = False; s.modelled = True
+        s.name = "KernelExpansion<%s>" % ("LinearKernel" if kern == 0 else "GaussianRbfKernel" if kern == 1 else "PolynomialKernel")
+        s.shape = "basis batches=%s nin=%d nout=%d offset=%d" % ("+".join(map(str, sz)), ni, no, off)
+        return s, p + 7 + nbat + nb * ni
     if k == "ENS":
         n = I(1); q = p + 2
         for i in range(n):
@@ -289,9 +297,23 @@ def gen_cmac(rng):
     return c
 
 def gen_kexp(rng):
-    kern = rng.randint(0, 1); nb = rng.randint(1, 5); ni = rng.randint(1, 3); no = rng.randint(1, 3)
+    kern = rng.choice([0, 1, 1, 2]); nb = rng.randint(1, 5); ni = rng.randint(1, 3); no = rng.randint(1, 3)
     basis = " ".join(hx(v) for v in gen_values(rng, nb * ni, den=2, span=4))
     return mk(rng, "KEXP %d %s %d %d %d %d %d %s" % (kern, hx(dy(rng, 1, 8, 8)), rng.randint(1, 3), nb, ni, no, rng.randint(0, 1), basis), tag="kexp")
+
+def gen_kexb(rng):
+    """KernelExpansion with the basis in explicitly given, unequal batches (1+3+2, single elements, one batch), Linear / Polynomial
+    (degree 2, 3; exact on integer data) / Gaussian kernels, with and without offset, rows of alpha that are zero, one and several outputs"""
+    kern = rng.choice([0, 0, 2, 2, 3, 1]); ni = rng.randint(1, 3); no = rng.choice([1, 1, 2, 3]); off = rng.randint(0, 1)
+    sz = rng.choice([[1], [2], [1, 1], [1, 3, 2], [3, 1], [2, 2, 1], [1, 1, 1, 1], [4], [2, 3]]); nb = sum(sz)
+    par = hx(float(rng.randint(0, 2))) if kern >= 2 else hx(dy(rng, 1, 8, 8))
+    basis = " ".join(hx(float(rng.randint(-2, 2))) for _ in range(nb * ni))
+    c = mk(rng, "KEXB %d %s %d %s %d %d %d %s" % (kern, par, len(sz), " ".join(map(str, sz)), ni, no, off, basis), tag="kexb")
+    c.params = [float(rng.randint(-3, 3)) for _ in c.params]; c.X = [[float(rng.randint(-2, 2)) for _ in r_] for r_ in c.X]
+    for r in range(nb):                       # zero rows of alpha
+        if rng.random() < 0.3:
+            for o in range(no): c.params[r * no + o] = 0.0
+    return c
 
 def gen_ens(rng):
     m = rng.randint(1, 3); ni, no = rng.randint(1, 3), rng.randint(1, 3); parts = []
@@ -355,7 +377,7 @@ def gen_row_scales(rng):
     return c
 
 GENS = [(gen_row_scales, 2), (gen_lin, 7), (gen_net, 5), (gen_neu, 2), (gen_nrm, 1), (gen_conv, 4), (gen_conv_edge, 4), (gen_pool, 2), (gen_pool_ties, 3), (gen_resize, 2), (gen_resize_edge, 2), (gen_rbf, 2), (gen_cmac, 2),
-        (gen_kexp, 2), (gen_ens, 2), (gen_netx, 5), (gen_cls, 3)]
+        (gen_kexp, 2), (gen_kexb, 3), (gen_ens, 2), (gen_netx, 5), (gen_cls, 3)]
 
 def gen_cases(rng, n):
     tot = sum(w for _, w in GENS); out = []
